@@ -113,6 +113,8 @@ type VerifLibView struct {
 	LpbNo    uint64             `json:"lpb"`
 	EffLibNo uint64             `json:"eff_lib_no"` // what VerifyTimestamp / the RPC see: Status.libNo()
 	Required uint16             `json:"required"`
+	// StatusBest is the block the Status regards as the best one (Status.bestBlock; what Update compares parents with)
+	StatusBest string `json:"status_best"`
 }
 
 // VerifView projects the status the node will continue with: the attached one, or (right after a start, before the
@@ -125,6 +127,11 @@ func (dpos *DPoS) VerifView() VerifLibView {
 		ls = bsLoader.ls
 	}
 	v := VerifLibView{Attached: done, Prpsd: map[string]VerifPl{}, LpbNo: ls.LpbNo, Required: ls.confirmsRequired}
+	if dpos.bestBlock != nil {
+		v.StatusBest = dpos.bestBlock.ID()
+	} else if bsLoader != nil && bsLoader.best != nil {
+		v.StatusBest = bsLoader.best.ID()
+	}
 	if ls.Lib != nil {
 		v.LibNo, v.LibHash = ls.Lib.BlockNo, ls.Lib.BlockHash
 	}
